@@ -138,6 +138,15 @@ func execEgo(src, mode string, run bool, limit time.Duration) runResult {
 		return runResult{Hung: true}
 	}
 	start := time.Now()
+	// Part of a program's output does not go through the context's buffer
+	// (deferred function literals, goroutines, test mode's flushes write to the
+	// process's standard output), so that is captured as well. The relative
+	// order of the two streams is not preserved; each is compared as a whole.
+	restore, read := func() {}, func() string { return "" }
+	if run {
+		restore, read = captureStdout()
+	}
+	defer restore()
 	ch := make(chan runResult, 1)
 	go func() { ch <- execInner(src, mode, run) }()
 	timer := time.NewTimer(limit)
@@ -146,6 +155,10 @@ func execEgo(src, mode string, run bool, limit time.Duration) runResult {
 	for tries := 0; ; tries++ {
 		select {
 		case r := <-ch:
+			restore()
+			if direct := read(); direct != "" {
+				r.Stdout = r.Stdout + "\n[written to the process's standard output]\n" + direct
+			}
 			r.TimedOut = timedOut
 			r.Elapsed = time.Since(start)
 			return r
@@ -224,19 +237,8 @@ func execInner(src, mode string, run bool) (res runResult) {
 	t.Close()
 	ctx := bytecode.NewContext(st, b).SetTokenizer(t).SetFullSymbolScope(false)
 	ctx.EnableConsoleOutput(false)
-	if mode == "test" {
-		// in test mode the run flushes program output to the process's
-		// standard output (bytecode Say); capture it there
-		restore, read := captureStdout()
-		func() {
-			defer restore()
-			err = ctx.Run()
-		}()
-		res.Stdout = read() + ctx.GetOutput()
-	} else {
-		err = ctx.Run()
-		res.Stdout = ctx.GetOutput()
-	}
+	err = ctx.Run()
+	res.Stdout = ctx.GetOutput()
 	if errors.Equals(err, errors.ErrStop) {
 		err = nil
 	}
